@@ -172,3 +172,114 @@ refactor("c07-r-fold-rename", "C07", FACT,
         for f in filter_functions:
             current = f(dispatcher, current)
         return current""")
+
+# ------------------------------------------------------------------ C05
+UOBS = "job_shop_lib/dispatching/_unscheduled_operations_observer.py"
+RULES = "job_shop_lib/dispatching/rules/_dispatching_rules_functions.py"
+mutant("c05-d1-alias", "C05", "R05.b", DISP,
+       "        uncompleted_operations = list(self.unscheduled_operations())\n",
+       "        uncompleted_operations = self.unscheduled_operations()\n",
+       "the original defect")
+mutant("c05-no-clear-dispatch", "C05", "R05.a", DISP,
+       "        self._job_next_available_time[job_id] = end_time\n        self._cache = {}\n",
+       "        self._job_next_available_time[job_id] = end_time\n")
+mutant("c05-clear-after-notify", "C05", "R05.a", DISP,
+       """        self._cache = {}
+
+        # Notify subscribers
+        for subscriber in self.subscribers:
+            subscriber.update(scheduled_operation)
+""",
+       """        # Notify subscribers
+        for subscriber in self.subscribers:
+            subscriber.update(scheduled_operation)
+        self._cache = {}
+""", "observers query a stale cache")
+mutant("c05-no-clear-reset", "C05", "R05.a", DISP,
+       "        self._job_next_available_time = [0] * self.instance.num_jobs\n        self._cache = {}\n        for subscriber",
+       "        self._job_next_available_time = [0] * self.instance.num_jobs\n        for subscriber")
+mutant("c05-clear-before-write", "C05", "R05.a", DISP,
+       """        self._machine_next_available_time[machine_id] = end_time
+        self._job_next_operation_index[job_id] += 1
+        self._job_next_available_time[job_id] = end_time
+        self._cache = {}
+""",
+       """        self._cache = {}
+        self._machine_next_available_time[machine_id] = end_time
+        self._job_next_operation_index[job_id] += 1
+        self._job_next_available_time[job_id] = end_time
+""")
+mutant("c05-sort-available", "C05", "R05.b", RULES,
+       """    return min(
+        dispatcher.available_operations(),
+        key=lambda operation: operation.duration,
+    )""",
+       """    ops = dispatcher.available_operations()
+    ops.sort(key=lambda operation: operation.duration)
+    return ops[0]""", "a rule sorting the memoised list in place")
+mutant("c05-machines-append", "C05", "R05.b", DISP,
+       "        return list(available_machines)\n",
+       "        result = self.available_jobs()\n        result.extend(available_machines)\n        return result\n")
+mutant("c05-param-flow", "C05", "R05.b", RULES,
+       """    return min(
+        dispatcher.available_operations(),
+        key=lambda operation: operation.position_in_job,
+    )""",
+       """    return _first(dispatcher.available_operations())
+
+
+def _first(ops):
+    ops.sort(key=lambda operation: operation.position_in_job)
+    return ops[0]""", "memoised list handed to a helper that sorts its parameter")
+mutant("c05-cached-arg", "C05", "R05.c", DISP,
+       "    @_dispatcher_cache\n    def available_jobs(self) -> list[int]:",
+       "    @_dispatcher_cache\n    def available_jobs(self, flexible_only: bool = False) -> list[int]:")
+mutant("c05-cache-min-start", "C05", "R05.c", DISP,
+       "    def min_start_time(self, operations: list[Operation]) -> int:",
+       "    @_dispatcher_cache\n    def min_start_time(self, operations: list[Operation]) -> int:",
+       "memoising a method with an argument: filters call it with different lists")
+mutant("c05-query-writes", "C05", "R05.d", DISP,
+       "        current_time = self.current_time()\n        ongoing_operations = []\n",
+       "        current_time = self.current_time()\n        self._job_next_available_time[0] = current_time\n        ongoing_operations = []\n")
+mutant("c05-obs-pop", "C05", "R05.e", UOBS,
+       "            job_deque.popleft()", "            job_deque.pop()")
+mutant("c05-obs-wrong-job", "C05", "R05.e", UOBS,
+       "        job_id = scheduled_operation.operation.job_id\n", "        job_id = scheduled_operation.machine_id\n")
+refactor("c05-r-clear-method", "C05", DISP,
+         "        self._job_next_available_time[job_id] = end_time\n        self._cache = {}\n",
+         "        self._job_next_available_time[job_id] = end_time\n        self._cache.clear()\n")
+refactor("c05-r-copy-method", "C05", DISP,
+         "        uncompleted_operations = list(self.unscheduled_operations())\n",
+         "        uncompleted_operations = self.unscheduled_operations().copy()\n")
+refactor("c05-r-concat", "C05", DISP,
+         """        uncompleted_operations = list(self.unscheduled_operations())
+        uncompleted_operations.extend(
+            scheduled_operation.operation
+            for scheduled_operation in self.ongoing_operations()
+        )
+        return uncompleted_operations""",
+         """        return self.unscheduled_operations() + [
+            scheduled_operation.operation
+            for scheduled_operation in self.ongoing_operations()
+        ]""")
+_v("c05-r-helper-clear", "C05", "refactor", None, [
+    (DISP, """        self._job_next_available_time[job_id] = end_time
+        self._cache = {}
+""", """        self._job_next_available_time[job_id] = end_time
+        self._invalidate()
+"""),
+    (DISP, """    def create_or_get_observer(
+        self,""", """    def _invalidate(self) -> None:
+        self._cache = {}
+
+    def create_or_get_observer(
+        self,"""),
+], "cache clear extracted into a helper")
+refactor("c05-r-local-sort", "C05", RULES,
+         """    return min(
+        dispatcher.available_operations(),
+        key=lambda operation: operation.duration,
+    )""",
+         """    ops = sorted(dispatcher.available_operations(), key=lambda operation: operation.duration)
+    ops.reverse()
+    return ops[-1]""", "mutating a fresh copy is fine")
